@@ -37,7 +37,7 @@ def check_expected(i, case, r, exp, what=('out', 'prints', 'vars'), fam='prog'):
             return fail(i, f'output differs: expected {out[:12]} got {r["out"][:12]}', f'{fam}:output')
         if 'prints' in what and [p[:2] for p in r['prints']] != [p[:2] for p in prints]:
             return fail(i, f'prints differ: expected {prints[:8]} got {r["prints"][:8]}', f'{fam}:prints')
-        if 'vars' in what:
+        if 'vars' in what and vars_ is not None:
             ev = {k: show_val(v) for k, v in vars_.items()}
             if r['vars'] != ev:
                 return fail(i, f'final variables differ: expected {ev} got {r["vars"]}', f'{fam}:vars')
